@@ -160,6 +160,10 @@ func buildCall(sym slip.Symbol, args slip.List, p *slip.Printer) (node Node) {
 		if 0 < len(args) {
 			node = newQuote(args[0], p)
 		}
+	case "backquote":
+		if 0 < len(args) {
+			node = newBackquote(args[0], p)
+		}
 	case "let", "let*":
 		node = newLet(name, args, p)
 	case "lambda":
